@@ -6,6 +6,28 @@ Anything else raises Unsupported (an analysis error for the caller)."""
 import ast
 from sa.util import AnalysisError
 class Unsupported(AnalysisError): pass
+def _class_constant(name, env, cls_name=None):
+    """a class-level constant (`NAME = <literal table>` in the body of a class of the analysed module): looked up through self / cls /
+    the class name.  The classes are those whose methods are in env["__functions__"] or env["__classdefs__"]."""
+    classes = {}
+    for f_ in (env.get("__functions__") or {}).values():
+        p_ = getattr(f_, "_parent", None)
+        if isinstance(p_, ast.ClassDef): classes.setdefault(p_.name, p_)
+    for n_, c_ in (env.get("__classdefs__") or {}).items(): classes.setdefault(n_, c_)
+    for cn_, c_ in classes.items():
+        if cls_name is not None and cn_ != cls_name: continue
+        for st_ in c_.body:
+            if isinstance(st_, (ast.Assign, ast.AnnAssign)) and st_.value is not None and any(isinstance(t_, ast.Name) and t_.id == name for t_ in (st_.targets if isinstance(st_, ast.Assign) else [st_.target])):
+                mod_ = c_
+                while mod_ is not None and not isinstance(mod_, ast.Module): mod_ = getattr(mod_, "_parent", None)
+                env2 = dict(TRUSTED); env2["__module__"] = mod_ if mod_ is not None else env.get("__module__")
+                for k_ in ("__classes__",):
+                    if k_ in env: env2[k_] = env[k_]
+                for k_, v_ in env.items():          # names the table may mention: constructors / classes the analysis stands in for
+                    if isinstance(v_, (PyFn, ClassRef)) and isinstance(k_, str) and "." not in k_: env2.setdefault(k_, v_)
+                try: return True, evaluate(st_.value, env2)
+                except (Unsupported, Raised): return False, None
+    return False, None
 def _iterate(v, env):
     """the items a for-loop / comprehension / list() sees: an interpreted instance iterates through its __iter__"""
     if isinstance(v, Inst) and env.get("__classdefs__"):
@@ -35,6 +57,9 @@ def evaluate(e, env):
             if e.attr != "__dict__" and e.attr != "__class__": raise Raised("AttributeError")
         if isinstance(base, Inst) and e.attr == "__dict__": return {k_[1:]: v_ for k_, v_ in base.items() if k_.startswith(".") and not k_.startswith(".__")}
         if isinstance(base, Inst) and e.attr == "__class__": return {".__name__": base[".__cls__"], ".kind": "cls"}
+        if isinstance(base, (dict, ClassRef)) and not isinstance(base, Inst):
+            f_, v_ = _class_constant(e.attr, env, base.name if isinstance(base, ClassRef) else None)
+            if f_: return v_
         h_ = (env.get("__functions__") or {}).get(e.attr)
         if isinstance(base, dict) and h_ is not None and any(isinstance(d_, ast.Name) and d_.id == "property" for d_ in h_.decorator_list) and h_.args.args and env.get("__depth__", 0) < 6:
             env2 = dict(env); env2["__depth__"] = env.get("__depth__", 0) + 1; env2[h_.args.args[0].arg] = base       # a property of the sample's class: its getter is interpreted
@@ -42,6 +67,7 @@ def evaluate(e, env):
             return run_block(h_.body, env2)
         if isinstance(base, dict) and base.get(".__complete__") and e.attr.startswith("_") and not e.attr.startswith("__") and e.attr not in (env.get("__functions__") or {}):
             raise Raised("AttributeError")           # the sample was built by interpreting its constructor: a private field the constructor does not set does not exist
+        if isinstance(base, str) and e.attr in ("format", "join", "startswith", "endswith", "lower", "upper", "strip", "replace", "split"): return PyFn(getattr(base, e.attr))
         if isinstance(base, Trusted):
             if e.attr not in base.names: raise Unsupported("%s.%s is outside the trusted part of the standard library" % (getattr(base.obj, "__name__", "?"), e.attr))
             v_ = getattr(base.obj, e.attr)
@@ -81,6 +107,8 @@ def evaluate(e, env):
         if e.id in (env.get("__globals__") or {}): return env["__globals__"][e.id]      # module-level state shared by all interpreted functions
         if e.id in env: return env[e.id]
         if e.id in (env.get("__functions__") or {}): return DefClosure(env["__functions__"][e.id], env)      # a function of the analysed module used as a value
+        if any(isinstance(getattr(f_, "_parent", None), ast.ClassDef) and f_._parent.name == e.id for f_ in (env.get("__functions__") or {}).values()): return ClassRef(e.id)
+        if e.id in TRUSTED: return TRUSTED[e.id]            # a whitelisted standard-library module the analysed file imports under its own name
         # a module-level constant of the analysed file (env["__module__"]: its ast.Module): literal tables and strings
         mod = env.get("__module__")
         if mod is not None:
@@ -353,10 +381,26 @@ class Trusted:
     returned by `re` answer their usual methods.  A Python exception raised inside becomes Raised(<class name>) with the
     names of its base classes, so that handlers of the evaluated code catch it as they would at run time."""
     def __init__(s, obj, names): s.obj, s.names = obj, set(names)
+import itertools as _it
+class _BoundedItertools:
+    """itertools with the infinite generators cut at 1000 items (generators are evaluated eagerly)"""
+    __name__ = "itertools"
+    @staticmethod
+    def count(start=0, step=1): return list(range(start, start + 1000 * step, step)) if step else [start] * 1000
+    @staticmethod
+    def chain(*its): return [x for it in its for x in it]
+    @staticmethod
+    def repeat(x, times=1000): return [x] * times
+    @staticmethod
+    def islice(it, *a): return list(_it.islice(list(it), *a))
+    @staticmethod
+    def product(*its, **kw): return list(_it.product(*[list(i) for i in its], **kw))
 TRUSTED = {
     "re": Trusted(_re, ("compile", "match", "fullmatch", "search", "sub", "escape", "findall", "split", "error", "IGNORECASE", "I", "MULTILINE", "M", "UNICODE", "U", "VERBOSE", "X", "DOTALL", "S")),
     "codecs": Trusted(_codecs, ("decode", "encode")),
     "unicodedata": Trusted(_ud, ("lookup", "name", "normalize", "category")),
+    "itertools": Trusted(_BoundedItertools, ("count", "chain", "repeat", "islice", "product")),
+    "operator": Trusted(__import__("operator"), ("attrgetter", "itemgetter", "eq", "ne", "lt", "gt", "le", "ge", "add", "sub", "not_", "is_", "is_not", "contains")),
 }
 _PATTERN_METHODS = ("match", "fullmatch", "search", "sub", "findall", "split", "finditer")
 _MATCH_METHODS = ("span", "group", "groups", "start", "end", "groupdict", "expand")
@@ -469,7 +513,7 @@ class DefClosure:
     def __call__(s, *args, **kw):
         h = s.node; params = [a.arg for a in h.args.args]
         if h.args.vararg or h.args.kwarg or len(args) > len(params): raise Unsupported("call of nested function %s with star arguments" % h.name)
-        env2 = dict(s.env); env2["__depth__"] = s.env.get("__depth__", 0) + 1
+        env2 = dict(s.env); env2["__depth__"] = s.env.get("__depth__", 0) + 1; env2["__defenv__"] = s.env; env2["__nonlocal_names__"] = set()
         if env2["__depth__"] > 12: raise Unsupported("recursion depth")
         defaults = dict(zip(params[len(params) - len(h.args.defaults):], h.args.defaults))
         for name_, dflt in defaults.items(): env2[name_] = evaluate(dflt, s.env)
@@ -504,7 +548,14 @@ def run_block(stmts, env, max_steps=2000):
     def assign(tg, v):
         if isinstance(tg, ast.Name):
             if tg.id in env.get("__global_names__", ()) and env.get("__globals__") is not None: env["__globals__"][tg.id] = v
-            else: env[tg.id] = v
+            else:
+                env[tg.id] = v
+                if tg.id in env.get("__nonlocal_names__", ()):        # rebinding a variable of the enclosing function: visible there (and in its other closures)
+                    d_ = env.get("__defenv__")
+                    while isinstance(d_, dict):
+                        d_[tg.id] = v
+                        if tg.id not in d_.get("__nonlocal_names__", ()): break
+                        d_ = d_.get("__defenv__")
         elif isinstance(tg, (ast.Tuple, ast.List)):
             v = list(v)
             if len(v) != len(tg.elts): raise Unsupported("unpacking arity")
@@ -617,7 +668,8 @@ def run_block(stmts, env, max_steps=2000):
                 continue
             if isinstance(s, ast.Global):
                 env["__global_names__"] = set(env.get("__global_names__", ())) | set(s.names); continue
-            if isinstance(s, ast.Nonlocal): continue
+            if isinstance(s, ast.Nonlocal):
+                env["__nonlocal_names__"] = set(env.get("__nonlocal_names__", ())) | set(s.names); continue
             if isinstance(s, ast.FunctionDef):
                 env[s.name] = DefClosure(s, env)
                 if s.name in (env.get("__functions__") or {}):       # the nearer definition wins over a same-named helper of an outer scope
